@@ -422,7 +422,12 @@ func (fr *Frame) builtin(st *State, b *ssa.Builtin, cc *ssa.CallCommon, pos toke
 	case "recover":
 		return Val{T: V("iface_nil", SIfc)}
 	case "clear":
-		ex.unsupported("builtin clear")
+		if mt, ok := cc.Args[0].Type().Underlying().(*types.Map); ok {
+			_ = mt
+			ex.mapClear(st, cc.Args[0].Type(), args[0].T)
+			return Val{}
+		}
+		ex.unsupported("builtin clear on %s", cc.Args[0].Type())
 	}
 	ex.unsupported("builtin %s", b.Name())
 	return Val{}
